@@ -12,8 +12,10 @@
 (* returns with an outcome in {value, error, more-input, budget exhausted} *)
 (* and leaves the interpreter usable for the next call.  A case is a       *)
 (* sequence of calls on ONE real interpreter with the outcome of each;     *)
-(* escaped panics, a nil result with a nil error, and the death of the     *)
-(* process are outcomes the machine does not have.                         *)
+(* escaped panics, a nil result with a nil error, the death of the process *)
+(* and a call that does not return although the step budget bounds the     *)
+(* evaluation ("hung": the worker's time limit passed) are outcomes the    *)
+(* machine does not have.                                                  *)
 (***************************************************************************)
 EXTENDS Integers, Sequences, Json, IOUtils, TLC
 
@@ -31,8 +33,8 @@ TStep ==
     /\ verdict = "run" /\ pos <= Len(Cases[ci].outs)
     /\ LET o == Cases[ci].outs[pos] IN
        IF o[1] \in Returns THEN pos' = pos + 1 /\ UNCHANGED <<ci, verdict>>
-       ELSE IF o[1] = "hung" THEN /\ verdict' = "skip" /\ UNCHANGED <<ci, pos>>
-                                  /\ PrintT(<<"VERDICT", Cases[ci].id, "skip", "hung">>)
+       ELSE IF o[1] = "notrun" THEN /\ verdict' = "skip" /\ UNCHANGED <<ci, pos>>
+                                    /\ PrintT(<<"VERDICT", Cases[ci].id, "skip", "notrun">>)
        ELSE /\ verdict' = "bad" /\ UNCHANGED <<ci, pos>>
             /\ PrintT(<<"VERDICT", Cases[ci].id, "bad", o[1], pos>>)
 
